@@ -50,6 +50,7 @@ pub mod c07;
 pub mod c10;
 pub mod c11;
 pub mod c12;
+pub mod c13;
 pub mod c14;
 pub mod c16;
 pub mod c20;
@@ -82,6 +83,9 @@ pub struct Node {
     pub pending_clears: Vec<(ActorId, RangeInclusive<CrsqlDbVersion>)>,
     pub tripwire_tx: mpsc::Sender<()>,
     pub tripwire: Tripwire,
+    /// the caches the API router would use (restored subscriptions live in the first one)
+    pub subs_cache: klukai_agent::api::public::pubsub::SharedMatcherBroadcastCache,
+    pub upd_cache: klukai_agent::api::public::update::SharedUpdateBroadcastCache,
     // kept alive so senders inside the agent do not error
     _keep: (
         Option<CorroReceiver<klukai_types::broadcast::FocaInput>>,
@@ -150,6 +154,8 @@ pub async fn new_node_in(idx: usize, dir: tempfile::TempDir, opts: NodeOpts) -> 
         rx_changes,
         rx_foca,
         rtt_rx,
+        subs_bcast_cache,
+        updates_bcast_cache,
         ..
     } = aopts;
 
@@ -214,6 +220,8 @@ pub async fn new_node_in(idx: usize, dir: tempfile::TempDir, opts: NodeOpts) -> 
         pending_clears: vec![],
         tripwire_tx,
         tripwire,
+        subs_cache: subs_bcast_cache,
+        upd_cache: updates_bcast_cache,
         _keep: (rx_foca, rtt_rx, api_listeners),
         conf,
     })
